@@ -1126,3 +1126,579 @@ Section Sim2.
       + rewrite tab_append_abs, tab_del_abs. unfold rem. rewrite (rb_remove_held d b t ts Ht). reflexivity.
   Qed.
 End Sim2.
+
+Lemma put_tab_absorb : forall t1 t2 t3 ts, t_box t1 = t_box t3 -> t_box t2 <> t_box t1 ->
+  put_tab t3 (put_tab t2 (put_tab t1 ts)) = put_tab t3 (put_tab t2 ts).
+Proof.
+  intros t1 t2 t3 ts H13 H21. unfold put_tab. rewrite !map_map. apply map_ext. intros x.
+  destruct (N.eqb (t_box x) (t_box t1)) eqn:E1.
+  - apply N.eqb_eq in E1.
+    assert (E2 : N.eqb (t_box t1) (t_box t2) = false) by (apply N.eqb_neq; congruence).
+    rewrite E2. rewrite H13, N.eqb_refl.
+    assert (E3 : N.eqb (t_box x) (t_box t2) = false) by (apply N.eqb_neq; congruence).
+    rewrite E3. rewrite E1, H13, N.eqb_refl. reflexivity.
+  - reflexivity.
+Qed.
+
+Lemma abs_put2 : forall d r d' t2 t3, abs_eq d r ->
+  d_tabs d' = put_tab t3 (put_tab t2 (d_tabs d)) -> d_msgs d' = d_msgs d -> (forall m f, db_has_flag d' m f = db_has_flag d m f) ->
+  abs_eq d' (set_boxes r (put_rbox (tab_abs t3) (put_rbox (tab_abs t2) (rf_boxes r)))).
+Proof.
+  intros d r d' t2 t3 [A1 [A2 A3]] Ht Hm Hf. split; [|split].
+  - cbn [rf_boxes set_boxes]. rewrite Ht, <- A1, !put_rbox_abs. reflexivity.
+  - cbn [rf_msgs set_boxes]. rewrite Hm. exact A2.
+  - intros m f. rewrite Hf. cbn [set_boxes]. unfold ref_has_flag. cbn [rf_flags]. apply A3.
+Qed.
+
+Section Sim3.
+  Variable F : list stmt_fact.
+  Hypothesis HF : facts_ok F = true.
+  Local Notation ci := true.
+  Local Notation istep := (impl_step F ci).
+
+  Lemma ex_remove_eq : forall b ids t d, inv d -> find_tab b (d_tabs d) = Some t ->
+    ex F ci (ORemoveMessages b ids) d = Ok (do_remove b ids t d) RUnit.
+  Proof.
+    intros b ids t d I Ht. destruct ids as [|x ids].
+    - rewrite (ex_remove F HF). unfold sp_remove_messages. cbn [tab_del_rows lift].
+      rewrite (do_remove_nil b t d I Ht), m2m_del_nil. reflexivity.
+    - apply (act_remove_unchecked_eq F HF b (x :: ids) t d I Ht).
+  Qed.
+
+  Lemma moved_eq : forall d b t ts, find_tab b (d_tabs d) = Some t -> filter (rb_holds (tab_abs t)) ts = filter (held d b) ts.
+  Proof.
+    intros d b t ts Ht. apply filter_ext_in'. intros m _. rewrite rb_holds_abs. unfold held. rewrite Ht. reflexivity.
+  Qed.
+
+  Lemma held_removed_none : forall d b t ids, find_tab b (d_tabs d) = Some t ->
+    filter (held (do_remove b (filter (held d b) ids) t d) b) (filter (held d b) ids) = [].
+  Proof.
+    intros d b t ids Ht. set (tm := filter (held d b) ids).
+    rewrite (filter_ext_in' _ (fun _ => false)).
+    - induction tm; [reflexivity | exact IHtm].
+    - intros m Hm. rewrite (held_do_remove b tm t d b m Ht), N.eqb_refl.
+      apply nmem_In in Hm. rewrite Hm. apply andb_false_r.
+  Qed.
+
+  Lemma sim_move : forall s b ts d r, rel d r -> cmd_wf (CMove s b ts) r = true ->
+    rel (fst (istep (CMove s b ts) d)) (fst (ref_step (CMove s b ts) r)) /\
+    snd (istep (CMove s b ts) d) = snd (ref_step (CMove s b ts) r).
+  Proof.
+    intros s b ts d r [I A] W. unfold impl_step. cbn [cmd_tx ref_step].
+    rewrite (abs_find d r s A), (abs_find d r b A), !box_known_find.
+    destruct (find_tab s (d_tabs d)) as [tsrc|] eqn:Hs; cbn [option_map andb]; [|split; [split; assumption | reflexivity]].
+    destruct (find_tab b (d_tabs d)) as [tdst|] eqn:Ht; cbn [option_map]; [|split; [split; assumption | reflexivity]].
+    cbn [cmd_wf] in W. destruct (targets_ok_db d r ts A W) as [Hnd Hex].
+    unfold act_move.
+    pose proof (ex_filter_contains F HF s ts d) as H. rewrite Hs in H. destruct H as [l [E Hl]]. rewrite E. cbn [rbind nums_of].
+    rewrite (filter_held d s tsrc ts l Hs Hl). rewrite (moved_eq d s tsrc ts Hs). set (tm := filter (held d s) ts).
+    assert (Hndm : NoDup tm) by (apply NoDup_filter; exact Hnd).
+    assert (Hexm : forall m, In m tm -> msg_exists m d = true) by (intros m Hm; apply filter_In in Hm; apply Hex; tauto).
+    destruct (N.eqb s b) eqn:Esb.
+    - (* the same mailbox *)
+      apply N.eqb_eq in Esb. subst b. rewrite Hs in Ht. inversion Ht; subst tdst. clear Ht.
+      rewrite (act_remove_unchecked_eq F HF s tm tsrc d I Hs). cbn [rbind].
+      set (d2 := do_remove s tm tsrc d).
+      assert (I2 : inv d2) by (apply inv_do_remove; assumption).
+      assert (H2 : find_tab s (d_tabs d2) = Some (tab_del tm tsrc)) by (apply find_do_remove_same; exact Hs).
+      destruct (act_add_eq F HF s tm (tab_del tm tsrc) d2 I2 H2 Hndm) as [res E2].
+      { intros m Hm. apply Hexm. exact Hm. }
+      rewrite E2. unfold d2, tm. rewrite (held_removed_none d s tsrc ts Hs). fold tm. fold d2.
+      rewrite (do_remove_nil s (tab_del tm tsrc) d2 I2 H2), tab_del_nil. cbn [fst snd]. split; [|reflexivity]. split.
+      + apply inv_do_add; [exact I2 | exact H2|]. split; [exact Hndm|]. intros m Hm. split; [|apply Hexm; exact Hm].
+        unfold d2. rewrite (held_do_remove s tm tsrc d s m Hs), N.eqb_refl. apply nmem_In in Hm. rewrite Hm. apply andb_false_r.
+      + replace (rb_append tm (rb_remove tm (tab_abs tsrc))) with (tab_abs (tab_append tm (tab_del tm tsrc)))
+          by (rewrite tab_append_abs, tab_del_abs; reflexivity).
+        apply (abs_put d r _ (tab_append tm (tab_del tm tsrc)) A); try reflexivity.
+        rewrite do_add_tabs. unfold d2. rewrite do_remove_tabs. apply put_put. rewrite tab_append_box. reflexivity.
+    - (* different mailboxes *)
+      apply N.eqb_neq in Esb.
+      pose proof (ex_filter_contains F HF b tm d) as H. rewrite Ht in H. destruct H as [l2 [E2 Hl2]]. rewrite E2. cbn [rbind nums_of].
+      rewrite (filter_held d b tdst tm l2 Ht Hl2). set (rem := filter (held d b) tm).
+      assert (E3 : match rem with [] => Ok d RUnit | _ :: _ => act_remove_unchecked F ci b rem d end = Ok (do_remove b rem tdst d) RUnit).
+      { destruct rem as [|x xs] eqn:Er.
+        - rewrite (do_remove_nil b tdst d I Ht). reflexivity.
+        - apply (act_remove_unchecked_eq F HF b (x :: xs) tdst d I Ht). }
+      rewrite E3. cbn [rbind]. set (d3 := do_remove b rem tdst d).
+      assert (I3 : inv d3) by (apply inv_do_remove; assumption).
+      assert (H3b : find_tab b (d_tabs d3) = Some (tab_del rem tdst)) by (apply find_do_remove_same; exact Ht).
+      assert (H3s : find_tab s (d_tabs d3) = Some tsrc) by (unfold d3; rewrite (find_do_remove_other b s rem tdst d Ht Esb); exact Hs).
+      rewrite (ex_common F HF (OGetCountAndUID b) d3 eq_refl). cbn [exec_common]. unfold op_get_count_and_uid, tab_or_fail.
+      rewrite H3b. cbn [rbind].
+      rewrite (ex_remove_eq s tm tsrc d3 I3 H3s). cbn [rbind]. set (d5 := do_remove s tm tsrc d3).
+      assert (I5 : inv d5) by (apply inv_do_remove; assumption).
+      assert (H5b : find_tab b (d_tabs d5) = Some (tab_del rem tdst)).
+      { unfold d5. rewrite (find_do_remove_other s b tm tsrc d3 H3s); [exact H3b | congruence]. }
+      assert (Hadd : addable d5 b tm).
+      { split; [exact Hndm|]. intros m Hm. split; [|apply Hexm; exact Hm].
+        unfold d5. rewrite (held_do_remove s tm tsrc d3 b m H3s).
+        assert (Ebs : N.eqb b s = false) by (apply N.eqb_neq; congruence). rewrite Ebs.
+        unfold d3. rewrite (held_do_remove b rem tdst d b m Ht), N.eqb_refl.
+        destruct (held d b m) eqn:Eh; [|reflexivity]. cbn [andb].
+        assert (In m rem) by (apply filter_In; split; assumption). apply nmem_In in H. rewrite H. reflexivity. }
+      destruct (ex_add_messages_eq F HF b tm (tab_del rem tdst) d5 I5 H5b Hadd) as [res E5]. rewrite E5. cbn [fst snd].
+      split; [|reflexivity]. split.
+      + apply inv_do_add; assumption.
+      + replace (rb_append tm (rb_remove tm (tab_abs tdst))) with (tab_abs (tab_append tm (tab_del rem tdst))).
+        * replace (rb_remove tm (tab_abs tsrc)) with (tab_abs (tab_del tm tsrc)) by apply tab_del_abs.
+          apply (abs_put2 d r _ (tab_del tm tsrc) (tab_append tm (tab_del rem tdst)) A); try reflexivity.
+          rewrite do_add_tabs. unfold d5. rewrite do_remove_tabs. unfold d3. rewrite do_remove_tabs.
+          apply put_tab_absorb.
+          -- rewrite tab_append_box. reflexivity.
+          -- unfold tab_del. cbn [t_box]. rewrite (find_tab_box _ _ _ Hs), (find_tab_box _ _ _ Ht). exact Esb.
+        * rewrite tab_append_abs, tab_del_abs. unfold rem. rewrite (rb_remove_held d b tdst tm Ht). reflexivity.
+  Qed.
+End Sim3.
+
+Lemma abs_put_flags : forall d r d' t' fl', abs_eq d r ->
+  d_tabs d' = put_tab t' (d_tabs d) -> d_msgs d' = d_msgs d -> (forall m f, db_has_flag d' m f = has fl' m f) ->
+  abs_eq d' (mkRef (put_rbox (tab_abs t') (rf_boxes r)) (rf_msgs r) fl').
+Proof.
+  intros d r d' t' fl' [A1 [A2 A3]] Ht Hm Hf. split; [|split].
+  - cbn [rf_boxes]. rewrite Ht, <- A1. symmetry. apply put_rbox_abs.
+  - cbn [rf_msgs]. rewrite Hm. exact A2.
+  - intros m f. rewrite Hf. reflexivity.
+Qed.
+
+Section Sim4.
+  Variable F : list stmt_fact.
+  Hypothesis HF : facts_ok F = true.
+  Local Notation ci := true.
+  Local Notation istep := (impl_step F ci).
+
+  Lemma cur_ids_targets : forall d ts l, NoDup ts -> (forall m, In m ts -> msg_exists m d = true) ->
+    (forall x, In x l <-> exists g, In g (d_msgs d) /\ In (mg_id g) ts /\ x = (mg_id g, mg_remote g, flags_of (mg_id g) (d_flags d))) ->
+    forall m, nmem m (cur_ids l) = nmem m ts.
+  Proof.
+    intros d ts l Hnd Hex Hl m. apply nmem_equiv. intros y. unfold cur_ids. rewrite in_map_iff. split.
+    - intros [x [E Hx]]. apply Hl in Hx. destruct Hx as [g [Hg [Hin Ex]]]. subst x. cbn in E. subst y. exact Hin.
+    - intros Hy. pose proof (Hex y Hy) as He. apply msg_exists_In in He. apply in_map_iff in He. destruct He as [g [Eg Hg]].
+      exists (mg_id g, mg_remote g, flags_of (mg_id g) (d_flags d)). split; [cbn; exact Eg|]. apply Hl. exists g.
+      split; [exact Hg|]. split; [rewrite Eg; exact Hy | reflexivity].
+  Qed.
+
+  (* the table part of a STORE: \Deleted on the targets, or nothing *)
+  Definition store_tab (chg : bool) (v : bool) (ts : list N) (t : mtab) : mtab := if chg then tab_setdel v ts t else t.
+  Definition store_db (chg : bool) (b : N) (v : bool) (ts : list N) (t : mtab) (d : db) : db :=
+    if chg then do_setdel b v ts t d else d.
+
+  Lemma store_db_props : forall chg b v ts t d, inv d -> find_tab b (d_tabs d) = Some t ->
+    inv (store_db chg b v ts t d) /\ d_tabs (store_db chg b v ts t d) = put_tab (store_tab chg v ts t) (d_tabs d) /\
+    d_msgs (store_db chg b v ts t d) = d_msgs d /\ d_flags (store_db chg b v ts t d) = d_flags d /\
+    d_m2m (store_db chg b v ts t d) = d_m2m d /\ d_mboxes (store_db chg b v ts t d) = d_mboxes d.
+  Proof.
+    intros chg b v ts t d I Ht. unfold store_db, store_tab. destruct chg.
+    - split; [apply inv_do_setdel; assumption|]. repeat split; reflexivity.
+    - split; [exact I|]. rewrite (put_tab_same _ _ _ (i_tabs d I) Ht). repeat split; reflexivity.
+  Qed.
+
+  Lemma store_tab_abs : forall chg v ts t,
+    tab_abs (store_tab chg v ts t) = if chg then rb_set_deleted ts v (tab_abs t) else tab_abs t.
+  Proof. intros. unfold store_tab. destruct chg; [apply tab_setdel_abs | reflexivity]. Qed.
+
+  Lemma has_ci_eq : forall f fs, has_ci f fs = fmem_ci f fs. Proof. reflexivity. Qed.
+
+  Lemma sim_store : forall b act fs ts d r, rel d r -> cmd_wf (CStore b act fs ts) r = true ->
+    rel (fst (istep (CStore b act fs ts) d)) (fst (ref_step (CStore b act fs ts) r)) /\
+    snd (istep (CStore b act fs ts) d) = snd (ref_step (CStore b act fs ts) r).
+  Proof.
+    intros b act fs ts d r [I A] W. unfold impl_step. cbn [cmd_tx ref_step].
+    rewrite (abs_find d r b A), box_known_find.
+    destruct (find_tab b (d_tabs d)) as [t|] eqn:Ht; cbn [option_map]; [|split; [split; assumption | reflexivity]].
+    cbn [cmd_wf] in W. destruct (targets_ok_db d r ts A W) as [Hnd Hex].
+    destruct (ex_get_flags F HF ts d) as [l [El Hl]].
+    pose proof (cur_ids_targets d ts l Hnd Hex Hl) as Hcur.
+    destruct act.
+    - (* +FLAGS *)
+      unfold apply_flags_added. destruct (has_ci recent_flag fs); [split; [split; assumption | reflexivity]|].
+      rewrite El. cbn [rbind msgflags_of].
+      set (chg := has_ci deleted_flag fs).
+      assert (E2 : (if chg then ex F ci (OSetDeleted b ts true) d else Ok d RUnit) = Ok (store_db chg b true ts t d) RUnit).
+      { unfold store_db. destruct chg; [apply (ex_setdel_eq F HF b ts true t d I Ht) | reflexivity]. }
+      rewrite E2. cbn [rbind].
+      destruct (store_db_props chg b true ts t d I Ht) as [I2 [T2 [M2 [F2 [P2 B2]]]]].
+      destruct (add_each_has F HF (norm_store_flags fs) l (store_db chg b true ts t d)) as [d' [E' [T' [M' [P' [B' [F' S']]]]]]].
+      + intros x Hx. rewrite (msg_exists_frame d _ _ M2). apply Hl in Hx. destruct Hx as [g [Hg [_ Ex]]]. subst x. cbn.
+        apply msg_exists_In. apply in_map. exact Hg.
+      + intros x f Hx Hf. rewrite db_has_flag_has, F2. apply Hl in Hx. destruct Hx as [g [Hg [_ Ex]]]. subst x. cbn [fst snd] in *.
+        rewrite fmem_ci_flags_of in Hf. exact Hf.
+      + rewrite E'. cbn [fst snd]. split; [|reflexivity]. split.
+        * apply (inv_frame_flags _ d' I2 T' M' P' B'). intros q Hq. destruct (S' q Hq) as [Q|Q].
+          -- rewrite F2 in Q. rewrite (msg_exists_frame d _ _ M2). apply (i_flags d I q Q).
+          -- rewrite (msg_exists_frame d _ _ M2). apply Hex. apply nmem_In. rewrite <- Hcur. apply nmem_In. exact Q.
+        * replace (if chg then rb_set_deleted ts true (tab_abs t) else tab_abs t) with (tab_abs (store_tab chg true ts t))
+            by apply store_tab_abs.
+          apply (abs_put_flags d r d' (store_tab chg true ts t) _ A).
+          -- rewrite T', T2. reflexivity.
+          -- rewrite M', M2. reflexivity.
+          -- intros m f. rewrite F', fold_add_flags_has, db_has_flag_has, F2, Hcur.
+             pose proof (proj2 (proj2 A) m f) as A3. rewrite db_has_flag_has, ref_has_flag_has in A3. rewrite A3. reflexivity.
+    - (* -FLAGS *)
+      unfold apply_flags_removed. destruct (has_ci recent_flag fs); [split; [split; assumption | reflexivity]|].
+      rewrite El. cbn [rbind msgflags_of].
+      set (chg := has_ci deleted_flag fs).
+      assert (E2 : (if chg then ex F ci (OSetDeleted b ts false) d else Ok d RUnit) = Ok (store_db chg b false ts t d) RUnit).
+      { unfold store_db. destruct chg; [apply (ex_setdel_eq F HF b ts false t d I Ht) | reflexivity]. }
+      rewrite E2. cbn [rbind].
+      destruct (store_db_props chg b false ts t d I Ht) as [I2 [T2 [M2 [F2 [P2 B2]]]]].
+      destruct (rem_each_has F HF (norm_store_flags fs) l (store_db chg b false ts t d)) as [d' [E' [T' [M' [P' [B' [F' S']]]]]]].
+      + intros x f Hx Hf. rewrite db_has_flag_has, F2. apply Hl in Hx. destruct Hx as [g [Hg [_ Ex]]]. subst x. cbn [fst snd] in *.
+        rewrite fmem_ci_flags_of in Hf. exact Hf.
+      + rewrite E'. cbn [fst snd]. split; [|reflexivity]. split.
+        * apply (inv_frame_flags _ d' I2 T' M' P' B'). intros q Hq. apply S' in Hq. rewrite F2 in Hq.
+          rewrite (msg_exists_frame d _ _ M2). apply (i_flags d I q Hq).
+        * replace (if chg then rb_set_deleted ts false (tab_abs t) else tab_abs t) with (tab_abs (store_tab chg false ts t))
+            by apply store_tab_abs.
+          apply (abs_put_flags d r d' (store_tab chg false ts t) _ A).
+          -- rewrite T', T2. reflexivity.
+          -- rewrite M', M2. reflexivity.
+          -- intros m f. rewrite F', fold_remove_flags_has, db_has_flag_has, F2, Hcur.
+             pose proof (proj2 (proj2 A) m f) as A3. rewrite db_has_flag_has, ref_has_flag_has in A3. rewrite A3. reflexivity.
+    - (* FLAGS *)
+      unfold apply_flags_set. destruct (has_ci recent_flag fs); [split; [split; assumption | reflexivity]|].
+      rewrite El. cbn [rbind].
+      rewrite (ex_setdel_eq F HF b ts (has_ci deleted_flag fs) t d I Ht). cbn [rbind].
+      set (d2 := do_setdel b (has_ci deleted_flag fs) ts t d).
+      assert (I2 : inv d2) by (apply inv_do_setdel; assumption).
+      rewrite (ex_set_flags F HF).
+      destruct (sp_set_flags_has ts (norm_store_flags fs) d2) as [d' [E' [T' [M' [P' [B' [F' S']]]]]]].
+      + intros m Hm. apply Hex. exact Hm.
+      + rewrite E'. cbn [fst snd]. split; [|reflexivity]. split.
+        * apply (inv_frame_flags _ d' I2 T' M' P' B'). intros q Hq. destruct (S' q Hq) as [Q|Q].
+          -- apply (i_flags d I q Q).
+          -- apply Hex. exact Q.
+        * replace (rb_set_deleted ts (has_ci deleted_flag fs) (tab_abs t)) with (tab_abs (tab_setdel (has_ci deleted_flag fs) ts t))
+            by apply tab_setdel_abs.
+          apply (abs_put_flags d r d' (tab_setdel (has_ci deleted_flag fs) ts t) _ A).
+          -- rewrite T'. reflexivity.
+          -- rewrite M'. reflexivity.
+          -- intros m f. rewrite F', rf_set_flags_has. destruct (nmem m ts); [reflexivity|].
+             pose proof (proj2 (proj2 A) m f) as A3. rewrite db_has_flag_has, ref_has_flag_has in A3. rewrite <- A3. reflexivity.
+  Qed.
+End Sim4.
+
+(* ------------------------------------------------------------------ flag lists *)
+Lemma fmem_ci_filter_inv : forall (p : flag -> bool) f l, (forall a b, flag_eqb_ci a b = true -> p a = p b) ->
+  fmem_ci f (filter p l) = fmem_ci f l && p f.
+Proof.
+  intros p f l Hp. unfold fmem_ci. induction l as [|g l IH]; [reflexivity|]. cbn [filter existsb].
+  destruct (flag_eqb_ci f g) eqn:E.
+  - rewrite <- (Hp f g E). destruct (p f); cbn [existsb orb andb]; [rewrite E; reflexivity|]. rewrite IH. apply andb_false_r.
+  - destruct (p g); cbn [existsb orb]; [rewrite E|]; exact IH.
+Qed.
+
+Lemma fmem_ci_dedup : forall f l, fmem_ci f (dedup_ci l) = fmem_ci f l.
+Proof.
+  intros f l. induction l as [|g l IH]; [reflexivity|]. cbn [dedup_ci]. unfold fmem_ci in *. cbn [existsb].
+  fold (fmem_ci f (filter (fun g0 => negb (flag_eqb_ci g0 g)) (dedup_ci l))).
+  rewrite (fmem_ci_filter_inv (fun g0 => negb (flag_eqb_ci g0 g)) f (dedup_ci l)).
+  - unfold fmem_ci. rewrite IH. destruct (flag_eqb_ci f g); [reflexivity|]. cbn [negb orb]. rewrite andb_true_r. reflexivity.
+  - intros a b Hab. f_equal. symmetry. apply ci_trans. exact Hab.
+Qed.
+
+Lemma NoDup_dedup_ci : forall l, NoDup (dedup_ci l).
+Proof.
+  induction l as [|g l IH]; [constructor|]. cbn [dedup_ci]. constructor.
+  - intros Hin. apply filter_In in Hin. destruct Hin as [_ H]. rewrite ci_refl in H. discriminate.
+  - apply NoDup_filter. exact IH.
+Qed.
+
+Lemma foldM_flag_ins_new : forall m L l, NoDup L -> (forall p, In p l -> fst p = m -> ~ In (snd p) L) ->
+  foldM flag_ins1 (map (fun f => (m, f)) L) l = Some (l ++ map (fun f => (m, f)) L).
+Proof.
+  intros m L. induction L as [|g L IH]; intros l Hnd Hl; cbn [map foldM].
+  - rewrite app_nil_r. reflexivity.
+  - unfold flag_ins1 at 1. cbn [fst snd]. inversion Hnd as [|? ? Hg HndL]; subst.
+    assert (E : fl_has m g l = false).
+    { unfold fl_has. destruct (existsb _ l) eqn:E; [|reflexivity]. apply existsb_exists in E. destruct E as [p [Hp E]].
+      apply andb_true_iff in E. destruct E as [A B]. apply N.eqb_eq in A. apply String.eqb_eq in B. exfalso.
+      apply (Hl p Hp A). left. symmetry. exact B. }
+    rewrite E. rewrite IH; [rewrite <- app_assoc; reflexivity | exact HndL|].
+    intros p Hp Hm Hin. apply in_app_or in Hp. destruct Hp as [Hp|[Hp|[]]].
+    + apply (Hl p Hp Hm). right. exact Hin.
+    + subst p. cbn in Hin. contradiction.
+Qed.
+
+(* ------------------------------------------------------------------ APPEND *)
+Lemma held_exists : forall d b m, inv d -> held d b m = true -> msg_exists m d = true.
+Proof.
+  intros d b m I H. unfold held in H. destruct (find_tab b (d_tabs d)) as [t|] eqn:Ht; [|discriminate].
+  apply existsb_exists in H. destruct H as [x [Hx E]]. apply N.eqb_eq in E. subst m.
+  destruct (i_rows d I t (find_tab_In _ _ _ Ht)) as [H1 _]. apply (H1 x Hx).
+Qed.
+
+Definition with_msg (d : db) (m : N) (fl : list flag) : db :=
+  set_flags (set_msgs d (d_msgs d ++ [mkMsg m m m false])) (d_flags d ++ map (fun f => (m, f)) fl).
+
+Lemma msg_exists_with_msg : forall d m fl x, msg_exists x (with_msg d m fl) = msg_exists x d || N.eqb m x.
+Proof. intros. unfold msg_exists, with_msg. cbn [d_msgs set_flags set_msgs]. rewrite existsb_app_single. reflexivity. Qed.
+
+Lemma inv_with_msg : forall d m fl, inv d -> msg_exists m d = false -> inv (with_msg d m fl).
+Proof.
+  intros d m fl I Hnew. constructor.
+  - intros t Ht. apply (i_boxes d I t Ht).
+  - apply (i_tabs d I).
+  - intros t Ht. destruct (i_rows d I t Ht) as [H1 H2]. split; [|exact H2]. intros x Hx. destruct (H1 x Hx) as [A B].
+    split; [exact A|]. rewrite msg_exists_with_msg, B. reflexivity.
+  - intros g Hg. unfold with_msg in Hg. cbn [d_msgs set_flags set_msgs] in Hg. apply in_app_or in Hg.
+    destruct Hg as [Hg|[Hg|[]]]; [apply (i_msgs d I g Hg) | subst g; reflexivity].
+  - unfold with_msg. cbn [d_msgs set_flags set_msgs]. rewrite map_app. apply NoDup_app_disj; [apply (i_msgs_nodup d I) | repeat constructor; intros [] |].
+    intros x Hx [E|[]]. cbn in E. subst x. apply msg_exists_In in Hx. congruence.
+  - intros x b. apply (i_m2m d I).
+  - intros q Hq. unfold with_msg in Hq. cbn [d_flags set_flags] in Hq. rewrite msg_exists_with_msg. apply in_app_or in Hq.
+    destruct Hq as [Hq|Hq]; [rewrite (i_flags d I q Hq); reflexivity|].
+    apply in_map_iff in Hq. destruct Hq as [f [E _]]. subst q. cbn [fst]. rewrite N.eqb_refl. apply orb_true_r.
+Qed.
+
+Lemma create_and_add_eq : forall b m L t d, inv d -> find_tab b (d_tabs d) = Some t -> msg_exists m d = false -> NoDup L ->
+  let fl := filter (fun f => negb (is_deleted_flag f)) L in
+  let d1 := with_msg d m fl in
+  exists n, op_create_message_and_add b (mkReq m m m L) d
+            = Ok (if existsb is_deleted_flag L then do_setdel b true [m] (tab_append [m] t) (do_add b [m] t d1) else do_add b [m] t d1) (RNum n).
+Proof.
+  intros b m L t d I Ht Hnew Hnd fl d1. subst d1. subst fl.
+  assert (Hrem : existsb (fun y => N.eqb (mg_remote y) m) (d_msgs d) = false).
+  { destruct (existsb _ (d_msgs d)) eqn:E; [|reflexivity]. apply existsb_exists in E. destruct E as [g [Hg E]].
+    apply N.eqb_eq in E. rewrite (i_msgs d I g Hg) in E. exfalso.
+    assert (msg_exists m d = true) by (apply msg_exists_In; rewrite <- E; apply in_map; exact Hg). congruence. }
+  assert (Hheld : held d b m = false).
+  { destruct (held d b m) eqn:E; [|reflexivity]. rewrite (held_exists d b m I E) in Hnew. discriminate. }
+  destruct (held_false_rows d b t m I Ht Hheld) as [R1 R2].
+  unfold op_create_message_and_add. cbn [q_id q_remote q_data q_flags].
+  (* message row *)
+  unfold msgs_ins_rows at 1. cbn [foldM]. unfold msg_ins1. cbn [mg_id mg_remote q_id q_remote q_data q_flags].
+  unfold msg_exists in Hnew. rewrite Hnew, Hrem. cbn [obind].
+  (* flag rows *)
+  unfold flags_ins_rows, req_flag_pairs. cbn [flat_map q_id q_flags d_flags set_msgs]. rewrite app_nil_r.
+  set (fl := filter (fun f => negb (is_deleted_flag f)) L).
+  rewrite (foldM_flag_ins_new m fl (d_flags d)).
+  2:{ apply NoDup_filter. exact Hnd. }
+  2:{ intros p Hp Hm. exfalso. pose proof (i_flags d I p Hp) as Hx. rewrite Hm in Hx. unfold msg_exists in Hx. congruence. }
+  cbn [obind].
+  change (set_flags (set_msgs d (d_msgs d ++ [mkMsg m m m false])) (d_flags d ++ map (fun f => (m, f)) fl)) with (with_msg d m fl).
+  set (d1 := with_msg d m fl).
+  (* membership row *)
+  unfold m2m_ins_rows. cbn [map fst foldM]. unfold m2m_ins1.
+  change (d_m2m d1) with (d_m2m d). rewrite (i_m2m d I), Hheld.
+  assert (E1 : msg_exists m d1 = true) by (unfold d1; rewrite msg_exists_with_msg, N.eqb_refl; apply orb_true_r).
+  rewrite E1. cbn [negb].
+  assert (E2 : mbox_exists b d1 = true).
+  { change (mbox_exists b d1) with (mbox_exists b d). rewrite <- (find_tab_box _ _ _ Ht). apply (i_boxes d I t (find_tab_In _ _ _ Ht)). }
+  rewrite E2. cbn [negb d_tabs set_m2m].
+  change (d_tabs d1) with (d_tabs d). rewrite Ht.
+  (* mailbox row *)
+  cbn [tab_ins_rows]. unfold upd_tab. cbn [d_tabs set_m2m d_msgs]. change (d_tabs d1) with (d_tabs d). rewrite Ht.
+  cbn [foldM]. unfold tab_ins1. rewrite R1, R2.
+  change (existsb (fun x => N.eqb (mg_id x) m) (d_msgs d1)) with (msg_exists m d1). rewrite E1. cbn [negb obind].
+  exists (t_seq t + 1).
+  change (mkTab (t_box t) (t_seq t + 1) (t_rows t ++ [mkRow (t_seq t + 1) m m false true])) with (tab_append [m] t).
+  change (set_tabs (set_m2m d1 (d_m2m d ++ [(m, b)])) (put_tab (tab_append [m] t) (d_tabs d))) with (do_add b [m] t d1).
+  destruct (existsb is_deleted_flag L); [|reflexivity].
+  cbn [tab_set_deleted]. unfold upd_tab.
+  assert (Hf : find_tab b (d_tabs (do_add b [m] t d1)) = Some (tab_append [m] t)).
+  { cbn [do_add d_tabs set_m2m set_tabs]. change (d_tabs d1) with (d_tabs d). apply (find_put_same b (d_tabs d) t _ Ht).
+    rewrite tab_append_box. apply (find_tab_box _ _ _ Ht). }
+  rewrite Hf. reflexivity.
+Qed.
+
+Section Sim5.
+  Variable F : list stmt_fact.
+  Hypothesis HF : facts_ok F = true.
+  Local Notation ci := true.
+  Local Notation istep := (impl_step F ci).
+
+  Lemma is_deleted_exists : forall L, existsb is_deleted_flag L = fmem_ci deleted_flag L.
+  Proof.
+    intros L. unfold fmem_ci, is_deleted_flag, deleted_flag. induction L as [|g L IH]; [reflexivity|]. cbn [existsb].
+    rewrite IH, (ci_sym g deleted_flag_name). reflexivity.
+  Qed.
+
+  Lemma sim_append : forall b m fs d r, rel d r -> cmd_wf (CAppend b m fs) r = true ->
+    rel (fst (istep (CAppend b m fs) d)) (fst (ref_step (CAppend b m fs) r)) /\
+    snd (istep (CAppend b m fs) d) = snd (ref_step (CAppend b m fs) r).
+  Proof.
+    intros b m fs d r [I A] W. unfold impl_step. cbn [cmd_tx ref_step].
+    rewrite (abs_find d r b A), box_known_find.
+    destruct (find_tab b (d_tabs d)) as [t|] eqn:Ht; cbn [option_map]; [|split; [split; assumption | reflexivity]].
+    unfold act_append. destruct (has_ci recent_flag fs); [split; [split; assumption | reflexivity]|].
+    cbn [cmd_wf] in W. apply negb_true_iff in W. rewrite <- (proj1 (proj2 A)), nmem_map_msgs in W.
+    assert (Hrem : find (fun x => N.eqb (mg_remote x) m) (d_msgs d) = None).
+    { destruct (find _ (d_msgs d)) as [g|] eqn:E; [|reflexivity]. apply find_some in E. destruct E as [Hg E]. apply N.eqb_eq in E.
+      rewrite (i_msgs d I g Hg) in E. exfalso.
+      assert (msg_exists m d = true) by (apply msg_exists_In; rewrite <- E; apply in_map; exact Hg). congruence. }
+    rewrite (ex_common F HF (OGetMessageIDFromRemote m) d eq_refl). cbn [exec_common]. unfold op_get_message_id_from_remote.
+    rewrite Hrem. cbn [option_map res_found].
+    rewrite (ex_common F HF (OCreateMessageAndAdd b (mkReq m m m (dedup_ci fs))) d eq_refl). cbn [exec_common].
+    destruct (create_and_add_eq b m (dedup_ci fs) t d I Ht W (NoDup_dedup_ci fs)) as [n E]. rewrite E. cbn [fst snd].
+    split; [|reflexivity].
+    set (fl := filter (fun f => negb (is_deleted_flag f)) (dedup_ci fs)).
+    set (d1 := with_msg d m fl).
+    assert (I1 : inv d1) by (apply inv_with_msg; assumption).
+    assert (H1 : find_tab b (d_tabs d1) = Some t) by exact Ht.
+    assert (Hadd : addable d1 b [m]).
+    { split; [repeat constructor; intros []|]. intros x [E1|[]]. subst x. split.
+      - change (held d1 b m) with (held d b m). destruct (held d b m) eqn:Eh; [|reflexivity].
+        rewrite (held_exists d b m I Eh) in W. discriminate.
+      - unfold d1. rewrite msg_exists_with_msg, N.eqb_refl. apply orb_true_r. }
+    assert (I2 : inv (do_add b [m] t d1)) by (apply inv_do_add; assumption).
+    assert (H2 : find_tab b (d_tabs (do_add b [m] t d1)) = Some (tab_append [m] t)).
+    { rewrite do_add_tabs. apply (find_put_same b (d_tabs d1) t _ H1). rewrite tab_append_box. apply (find_tab_box _ _ _ Ht). }
+    rewrite is_deleted_exists, fmem_ci_dedup. change (fmem_ci deleted_flag fs) with (has_ci deleted_flag fs).
+    set (del := has_ci deleted_flag fs).
+    split.
+    - destruct del; [apply inv_do_setdel; assumption | exact I2].
+    - (* abstraction *)
+      destruct A as [A1 [A2 A3]].
+      assert (Tabs : d_tabs (if del then do_setdel b true [m] (tab_append [m] t) (do_add b [m] t d1) else do_add b [m] t d1)
+                     = put_tab (if del then tab_setdel true [m] (tab_append [m] t) else tab_append [m] t) (d_tabs d)).
+      { destruct del.
+        - cbn [do_setdel d_tabs set_tabs]. rewrite do_add_tabs. change (d_tabs d1) with (d_tabs d). apply put_put.
+          unfold tab_setdel. cbn [t_box]. reflexivity.
+        - rewrite do_add_tabs. reflexivity. }
+      split; [|split].
+      + cbn [rf_boxes]. rewrite Tabs, <- A1, <- put_rbox_abs. f_equal.
+        destruct del; [rewrite tab_setdel_abs, tab_append_abs | rewrite tab_append_abs]; reflexivity.
+      + cbn [rf_msgs]. rewrite <- A2.
+        replace (d_msgs (if del then do_setdel b true [m] (tab_append [m] t) (do_add b [m] t d1) else do_add b [m] t d1))
+          with (d_msgs d ++ [mkMsg m m m false]) by (destruct del; reflexivity).
+        rewrite map_app. reflexivity.
+      + intros x f. unfold ref_has_flag. cbn [rf_flags]. rewrite db_has_flag_has.
+        replace (d_flags (if del then do_setdel b true [m] (tab_append [m] t) (do_add b [m] t d1) else do_add b [m] t d1))
+          with (d_flags d ++ map (fun g => (m, g)) fl) by (destruct del; reflexivity).
+        fold (has (rf_flags r ++ map (fun g => (m, g)) (dedup_ci (without_deleted fs))) x f).
+        rewrite !has_app, !has_map_snd.
+        pose proof (A3 x f) as A3'. rewrite db_has_flag_has, ref_has_flag_has in A3'. rewrite A3'. f_equal. f_equal.
+        unfold fl. rewrite fmem_ci_filter_inv, !fmem_ci_dedup.
+        * unfold without_deleted. rewrite fmem_ci_filter_inv.
+          -- unfold is_deleted_flag, deleted_flag. reflexivity.
+          -- intros a c Hac. f_equal. symmetry. apply ci_trans. exact Hac.
+        * intros a c Hac. unfold is_deleted_flag. f_equal. symmetry. apply ci_trans. exact Hac.
+  Qed.
+
+  Lemma sim_clear_recent : forall b d r, rel d r ->
+    rel (fst (istep (CClearRecent b) d)) (fst (ref_step (CClearRecent b) r)) /\
+    snd (istep (CClearRecent b) d) = snd (ref_step (CClearRecent b) r).
+  Proof.
+    intros b d r [I A]. unfold impl_step. cbn [cmd_tx ref_step].
+    rewrite (ex_common F HF (OClearRecentAll b) d eq_refl). cbn [exec_common]. unfold op_clear_recent_all.
+    rewrite (abs_find d r b A).
+    destruct (find_tab b (d_tabs d)) as [t|] eqn:Ht; cbn [option_map fst snd]; [|split; [split; assumption | reflexivity]].
+    split; [|reflexivity].
+    set (t' := mkTab (t_box t) (t_seq t) (map (fun x => mkRow (r_uid x) (r_msg x) (r_remote x) (r_deleted x) false) (t_rows t))).
+    pose proof (find_tab_box _ _ _ Ht) as Hb.
+    split.
+    - constructor.
+      + intros x Hx. cbn [d_tabs set_tabs] in Hx. unfold mbox_exists, find_mbox. cbn [d_mboxes set_tabs].
+        apply In_put_tab in Hx. destruct Hx as [E|[Hx _]].
+        * subst x. apply (i_boxes d I t (find_tab_In _ _ _ Ht)).
+        * apply (i_boxes d I x Hx).
+      + cbn [d_tabs set_tabs]. rewrite put_tab_boxes. apply (i_tabs d I).
+      + intros x Hx. cbn [d_tabs set_tabs] in Hx. apply rows_ok_frame with (d := d); [reflexivity|].
+        apply In_put_tab in Hx. destruct Hx as [E|[Hx _]]; [|apply (i_rows d I x Hx)].
+        subst x. destruct (i_rows d I t (find_tab_In _ _ _ Ht)) as [H1 H2]. split.
+        * intros y Hy. unfold t' in Hy. cbn [t_rows] in Hy. apply in_map_iff in Hy. destruct Hy as [z [E Hz]].
+          destruct (H1 z Hz) as [A1 B1]. subst y. cbn. tauto.
+        * unfold t'. cbn [t_rows]. rewrite map_map. cbn [r_msg]. exact H2.
+      + apply (i_msgs d I).
+      + apply (i_msgs_nodup d I).
+      + intros m b'. cbn [d_m2m set_tabs]. rewrite (i_m2m d I).
+        rewrite (held_put d b b' t' m Hb (ex_intro _ t Ht)).
+        destruct (N.eqb b' b) eqn:E; [|reflexivity]. apply N.eqb_eq in E. subst b'.
+        unfold t'. cbn [t_rows]. unfold held. rewrite Ht.
+        induction (t_rows t) as [|z zs IH]; [reflexivity|]. cbn [map existsb r_msg]. rewrite IH. reflexivity.
+      + apply (i_flags d I).
+    - replace (mkRB (rb_id (tab_abs t)) (rb_last (tab_abs t))
+                 (map (fun e => mkRR (rr_uid e) (rr_msg e) (rr_deleted e) false) (rb_rows (tab_abs t)))) with (tab_abs t').
+      + apply (abs_put d r _ t' A); reflexivity.
+      + unfold tab_abs, t'. cbn. f_equal. rewrite !map_map. reflexivity.
+  Qed.
+
+  Theorem step_sim : forall c d r, rel d r -> cmd_wf c r = true ->
+    rel (fst (istep c d)) (fst (ref_step c r)) /\ snd (istep c d) = snd (ref_step c r).
+  Proof.
+    intros c d r R W. destruct c.
+    - apply sim_append; assumption.
+    - apply (sim_store F HF); assumption.
+    - apply (sim_expunge F HF); assumption.
+    - apply (sim_copy F HF); assumption.
+    - apply (sim_move F HF); assumption.
+    - apply sim_clear_recent; assumption.
+  Qed.
+
+  Theorem run_sim : forall cs d r, rel d r -> run_wf cs r = true -> rel (run_impl F ci cs d) (run_spec cs r).
+  Proof.
+    induction cs as [|c cs IH]; intros d r R W; [exact R|]. cbn [run_impl run_spec run_wf] in *.
+    apply andb_true_iff in W. destruct W as [W1 W2].
+    destruct (step_sim c d r R W1) as [R' _]. apply IH; assumption.
+  Qed.
+
+  (* a command that is answered NO has no effect *)
+  Theorem failed_no_effect : forall c d, snd (istep c d) = NO -> fst (istep c d) = d.
+  Proof. intros c d H. unfold impl_step in *. destruct (cmd_tx F ci c d); [discriminate | reflexivity]. Qed.
+
+  Theorem outcomes_agree : forall c d r, rel d r -> cmd_wf c r = true -> snd (istep c d) = snd (ref_step c r).
+  Proof. intros c d r R W. apply (step_sim c d r R W). Qed.
+End Sim5.
+
+Lemma rel_empty : rel empty_db empty_ref.
+Proof.
+  split.
+  - constructor; cbn; try (intros; contradiction); try constructor; try (intros; reflexivity).
+  - split; [reflexivity | split; [reflexivity | intros; reflexivity]].
+Qed.
+
+(* ------------------------------------------------------------------ consequences *)
+Section Consequences.
+  Variable F : list stmt_fact.
+  Hypothesis HF : facts_ok F = true.
+
+  (* STORE -FLAGS (f) removes every spelling of f from the targets *)
+  Theorem store_remove_any_case : forall b ts f f' d r, rel d r -> cmd_wf (CStore b SRemove [f] ts) r = true ->
+    snd (impl_step F true (CStore b SRemove [f] ts) d) = OK ->
+    flag_eqb_ci f deleted_flag = false -> flag_eqb_ci f f' = true ->
+    forall m, In m ts -> db_has_flag (fst (impl_step F true (CStore b SRemove [f] ts) d)) m f' = false.
+  Proof.
+    intros b ts f f' d r R W Hok Hnd Hc m Hm.
+    destruct (step_sim F HF (CStore b SRemove [f] ts) d r R W) as [[_ [_ [_ A3]]] Ho]. rewrite A3.
+    rewrite Hok in Ho. cbn [ref_step] in *.
+    destruct (find_rbox b r) as [x|]; [|discriminate].
+    destruct (has_ci recent_flag [f]); [discriminate|]. cbn [fst].
+    unfold ref_has_flag. cbn [rf_flags]. fold (has (fold_left (fun acc g => rf_remove_flag ts g acc) (norm_store_flags [f]) (rf_flags r)) m f').
+    rewrite fold_remove_flags_has. apply nmem_In in Hm. rewrite Hm. cbn [andb].
+    assert (E : fmem_ci f' (norm_store_flags [f]) = true).
+    { unfold norm_store_flags. rewrite fmem_ci_dedup. unfold without_deleted. rewrite fmem_ci_filter_inv.
+      - assert (E1 : fmem_ci f' (fwd_expand [f]) = true).
+        { unfold fwd_expand. destruct (existsb _ fwd_flags); unfold fmem_ci; [rewrite existsb_app|]; cbn [existsb];
+            rewrite (ci_sym f' f), Hc; reflexivity. }
+        rewrite E1. cbn [andb]. rewrite (ci_trans f f' deleted_flag Hc), Hnd. reflexivity.
+      - intros a c Hac. f_equal. symmetry. apply ci_trans. exact Hac. }
+    rewrite E. cbn [negb]. apply andb_false_r.
+  Qed.
+End Consequences.
+
+(* a start state with two empty mailboxes *)
+Definition db2 : db :=
+  mkDb [mkMbox 1 1 1 1 true; mkMbox 2 2 2 1 true] 2 [] [] [] [] [] [] [mkTab 1 0 []; mkTab 2 0 []] [] None.
+Definition ref2 : ref := mkRef [mkRB 1 0 []; mkRB 2 0 []] [] [].
+
+Lemma rel_db2 : rel db2 ref2.
+Proof.
+  split.
+  - constructor.
+    + intros t [E|[E|[]]]; subst t; reflexivity.
+    + cbn. repeat constructor; cbn; intuition discriminate.
+    + intros t [E|[E|[]]]; subst t; (split; [intros x [] | constructor]).
+    + intros g [].
+    + constructor.
+    + intros m b. unfold held, db2. cbn [d_m2m d_tabs pair_mem existsb find_tab find t_box].
+      destruct (N.eqb 1 b); [reflexivity|]. destruct (N.eqb 2 b); reflexivity.
+    + intros p [].
+  - split; [reflexivity | split; [reflexivity | intros; reflexivity]].
+Qed.
+
+Theorem run_sim_ci : forall F ci cs d r, facts_ok F = true -> ci = true -> rel d r -> run_wf cs r = true ->
+  rel (run_impl F ci cs d) (run_spec cs r).
+Proof. intros F ci cs d r HF Hc R W. subst ci. apply run_sim; assumption. Qed.
+
+Theorem failed_no_effect_gen : forall F ci c d, snd (impl_step F ci c d) = NO -> fst (impl_step F ci c d) = d.
+Proof. intros F ci c d H. unfold impl_step in *. destruct (cmd_tx F ci c d); [discriminate | reflexivity]. Qed.
